@@ -55,6 +55,7 @@ struct ConfigWorld : World {
 			p.ops.push_back(op);
 		}
 	}
+	static size_t e_len(const char *base, char sep, size_t avail) { size_t n = 0; while (n < avail && base[n] != sep && base[n]) ++n; return n; }
 	static MNode *find(MNode &root, const PathV &pv, bool create) {
 		MNode *n = &root;
 		for (auto &e : pv) {
@@ -222,15 +223,38 @@ struct ConfigWorld : World {
 				if (!degenerate) {
 					mpt::path bp; bp.sep = sep; bp.assign = 0; bool ok = true;
 					for (auto &e : rel) {
-						for (char c : e) { int r; { Sut s; r = mpt_path_addchar(&bp, (unsigned char) c); } if (r < 0) ok = false; }
+						// a character stays pending (the next one replaces it) until mpt_path_valid() keeps it
+						for (char c : e) { int r; { Sut s; r = mpt_path_addchar(&bp, (unsigned char) c); if (r >= 0) r = mpt_path_valid(&bp); } if (r < 0) ok = false; }
 						int r; { Sut s; r = mpt_path_add(&bp, (int) e.size()); } if (r < 0) ok = false;
 					}
+					if (!ok) fail("refused-valid", "element-wise construction of '%s' refused", short_path(rel).c_str());
 					if (ok) {
 						PathV seen2; mpt::path it(bp); int g2 = 0;
 						while (true) { const char *base = it.base + it.off; int l; { Sut s; l = mpt_path_next(&it); } if (l < 0) break; seen2.emplace_back(base, (size_t) l); if (++g2 > 16) break; }
 						if (seen2 != rel) fail("walk-differs", "a path rebuilt element by element from '%s' iterates as %zu elements", short_path(rel).c_str(), seen2.size());
 					}
 					{ Sut s; mpt_path_fini(&bp); }
+					// the same through the C++ path class: add(n) closes an element of n characters, next() walks, del() drops the last element
+					if (op.c & 1) {
+						mpt::path *cp; { Sut s; cp = new mpt::path(0, sep, 0); }
+						bool ok2 = true;
+						for (auto &e : rel) {
+							for (char c : e) { int r; { Sut s; r = mpt_path_addchar(cp, (unsigned char) c); if (r >= 0) r = mpt_path_valid(cp); } if (r < 0) ok2 = false; }
+							int r; { Sut s; r = cp->add((int) e.size()); } if (r < 0) ok2 = false;
+						}
+						st.hit("probe:cxx_path_rebuilt");
+						if (!ok2) fail("refused-valid", "C++ path: element-wise construction of '%s' refused", short_path(rel).c_str());
+						{ mpt::path it(*cp); PathV seen3; int g3 = 0;
+						  while (true) { const char *base = it.base + it.off; size_t before = it.len; bool more; { Sut s; more = it.next(); } if (!more) break; seen3.emplace_back(base, e_len(base, sep, before)); if (++g3 > 16) break; }
+						  if (seen3 != rel) fail("walk-differs", "C++ path rebuilt element by element from '%s' iterates as %zu elements", short_path(rel).c_str(), seen3.size()); }
+						if (rel.size() > 1) {
+							int r; { Sut s; r = cp->del(); }
+							PathV want(rel.begin(), rel.end() - 1); mpt::path it(*cp); PathV seen4; int g4 = 0;
+							while (true) { const char *base = it.base + it.off; int l; { Sut s; l = mpt_path_next(&it); } if (l < 0) break; seen4.emplace_back(base, (size_t) l); if (++g4 > 16) break; }
+							if (r < 0 || seen4 != want) fail("walk-differs", "C++ path: after del() on '%s' %zu elements remain (result %d), %zu expected", short_path(rel).c_str(), seen4.size(), r, want.size());
+						}
+						{ Sut s; delete cp; }
+					}
 				}
 				outcome = (int) seen.size();
 				break;
